@@ -155,7 +155,7 @@ func (t Time) Add(input Quantity) (Time, error) {
 		return Time{}, err
 	}
 	duration = roundToTimePrecision(timeMap[t.l], duration)
-	return Time{t.time.Add(duration), t.l}, nil
+	return Time{timeOfDay(t.time.Add(duration)), t.l}, nil
 }
 
 // Sub returns the result of the time-valued quantity subtracted from t.
@@ -166,7 +166,13 @@ func (t Time) Sub(input Quantity) (Time, error) {
 		return Time{}, err
 	}
 	duration = roundToTimePrecision(timeMap[t.l], duration)
-	return Time{t.time.Add(-duration), t.l}, nil
+	return Time{timeOfDay(t.time.Add(-duration)), t.l}, nil
+}
+
+// timeOfDay drops the date a time.Time carries along, so that a Time wraps around
+// midnight: the result is the same time of day on the date that parsed Times use.
+func timeOfDay(t time.Time) time.Time {
+	return time.Date(0, 1, 1, t.Hour(), t.Minute(), t.Second(), t.Nanosecond(), t.Location())
 }
 
 // roundToTimePrecision is used to round down to the highest precision of
